@@ -107,7 +107,8 @@ type Pred struct {
 // Nonterm is a (possibly templated) nonterminal.
 type Nonterm struct {
 	Name     string
-	Params   []int // indices in Grammar.Params, in declaration order
+	Type     string // optional {type} of the semantic value
+	Params   []int  // indices in Grammar.Params, in declaration order
 	Alts     []*Alt
 	ExtendAt int    // if > 0, alternatives [ExtendAt:] are printed in an "extend" clause
 	Arrow    string // "-> Name" default report clause (printing only)
@@ -160,6 +161,8 @@ type Assert struct {
 // Grammar is an abstract extended grammar.
 type Grammar struct {
 	Name       string
+	Target     string   // "go" (default), "cc" or "ts"
+	TermTypes  []string // optional {type} per user terminal
 	Terms      []string // user terminals; symbol ids are 2+i (0 = eoi, 1 = invalid_token)
 	HasError   bool     // declares the 'error' terminal (id 2+len(Terms))
 	EventBased bool
